@@ -350,3 +350,10 @@ V("C05-k-rich-noretry", "C05", "C05.5", (ITY, "            if redo_step:\n      
 V("C05-l-rich-retry-same", "C05", "C05.5", (ITY, "                timestep, (self.dTime, self.dState) = self(rhs, initial_time, initial_state, constants,\n                                                           next_timestep)", "                timestep, (self.dTime, self.dState) = self(rhs, initial_time, initial_state, constants,\n                                                           dt0)"))
 V("C05-m-rich-redo-cleared", "C05", "C05.5", (ITY, "            else:\n                next_timestep = new_timestep\n", "            else:\n                next_timestep = new_timestep\n                redo_step = False\n"))
 V("C05-n-rich-estimate", "C05", "C05.5", (ITY, "self.stage_values[m - 1, n - 1]), self.stage_values[m - 1, m - 1] - self.stage_values[m, m]", "self.stage_values[m - 1, n - 1]), self.stage_values[m - 1, m - 1] - self.stage_values[m - 1, m - 2]"))
+V("C14-i-bracket-wrong-sign", "C14", "C14.6", (OPT, "        if fa * fs < 0:\n            b = s\n            fb = fs\n        else:\n            a = s\n            fa = fs", "        if fb * fs < 0:\n            b = s\n            fb = fs\n        else:\n            a = s\n            fa = fs"))
+V("C14-j-bracket-unpaired", "C14", "C14.6", (OPT, "        if fa * fs < 0:\n            b = s\n            fb = fs\n        else:\n            a = s\n            fa = fs", "        if fa * fs < 0:\n            b = s\n            fb = fs\n        else:\n            a = s"))
+V("C14-k-no-swap", "C14", "C14.6", (OPT, "        if D.ar_numpy.abs(fa) < D.ar_numpy.abs(fb):\n            a, b = b, a\n            fa, fb = fb, fa\n        conv = (fb == 0", "        conv = (fb == 0"))
+V("C14-l-vec-bracket", "C14", "C14.6", (OPT, "        mask = fa * fs < 0\n        mask[not_conv] = False\n        b[mask] = s[mask]\n        fb[mask] = fs[mask]", "        mask = fa * fs < 0\n        mask[not_conv] = False\n        b[mask] = s[mask]\n        fb[mask] = fb[mask]"))
+V("C14-s-bracket-swapped-branches", "C14", "silent", (OPT, "        if fa * fs < 0:\n            b = s\n            fb = fs\n        else:\n            a = s\n            fa = fs", "        if not (fa * fs < 0):\n            a, fa = s, fs\n        else:\n            b, fb = s, fs"))
+V("C03-n-restore-prev", "C03", "C03.6", (DS, "                            self.__t[self.counter + 1] = next_time\n", "                            self.__t[self.counter + 1] = prev_time\n"))
+V("C03-o-restore-stale-state", "C03", "C03.6", (DS, "                        next_state = self.__y[self.counter]\n", "                        next_state = self.__y[self.counter - 1] + dState\n"))
